@@ -27,9 +27,11 @@ P = "Pixman.Props.C13."
 REQUIRED = [P + t for t in (
     # G1 (safety, arbitrary stop lists): full strength
     "searchFrom_le", "searchFrom_terminates", "walkerReset_indices_in_block", "walkerReset_no_oob", "rows_no_oob",
-    # G2 (walker colour): components; the composition with Spec.colourAt is not proved (see PARTIAL)
+    # G2 (walker colour): components and their composition with Spec.colourAt (all four repeat modes)
     "walker_search_brackets_position_partial", "sentinel_stops", "walker_interval_colour_partial",
     "walker_degenerate_colour_partial",
+    "walker_colour_eq_spec_none", "walker_colour_eq_spec_pad", "walker_colour_eq_spec_normal",
+    "walker_colour_eq_spec_reflect", "walker_colour_eq_spec", "wellFormed_spec",
     # G3 (linear)
     "linearT_is_projection", "linear_walker_position_close", "linear_affine_increments_exact",
     "linear_affine_position_close_partial",
@@ -41,11 +43,12 @@ REQUIRED = [P + t for t in (
     "radial_a_zero_b_zero_transparent", "radial_equal_circles_guarded",
 )]
 PARTIAL = {
-    "G2-composition": "no theorem walkerEval (walkerReset (walkerInit rep stops) pos) pos = Spec.colourAt rep stops (pos/65536) "
-                      "for non-decreasing stops: proved are the bracket property of the search (walker_search_brackets_position_partial), "
-                      "the sentinels, and interval colour = premultiplied lerp (walker_interval_colour_partial, "
-                      "walker_degenerate_colour_partial); missing: Spec.fold = foldPos for NORMAL/REFLECT, the filter/getLast? form of "
-                      "the Spec's neighbours, the 12 sentinel cases; covered only by the Spec oracle on every generated pixel",
+    "G2-cache": "walker_colour_eq_spec is about a fresh stop search at pos (walkerReset at pos, evaluated at pos), for "
+                "non-decreasing stops in [0,1], any repeat; NORMAL/REFLECT need |pos| < 2^31 - 2^18 (beyond it a shifted interval "
+                "end can equal INT32_MIN/INT32_MAX and the code takes its sentinel branch: example in Props/C13.lean). Not proved: "
+                "validity of the cached segment for later positions (x in [left_x, right_x) painted without a new search) - "
+                "false in mirrored REFLECT periods at hard edges (history dependence, excluded points of the check), "
+                "tested by the walk-history oracle elsewhere",
     "linear_affine_position_close_partial": "the code truncates t0 and i*inc separately: the used position is < 2 units (2^-15) from the exact one, not < 1",
     "IEEE": "float/double rounding, sqrt and atan2 are not modelled (model and Spec are exact over Rat); conical: no theorem beyond the "
             "definition (atan2 is a parameter), tested against long double atan2l",
@@ -174,6 +177,15 @@ def compare(o, a, m, hist, stats):
         hist["horizontal-shortcut"] += 1
     if "x" in fl:
         hist["exact-parameter-rows(no either-side tolerance)"] += 1
+    # OVER onto a non-empty destination = SRC into a temporary, then OVER (transparent pixels keep the destination)
+    if "O" in extra:
+        stats["over-checked-requests"] += 1
+        if extra["O"] != ["same"]:
+            f = extra["O"][0].split(":")
+            out.append(("oracle:over-vs-src-then-over", "%s|%s" % (d["kind"], REPS[d["rep"]]),
+                        "OP_OVER of the gradient onto an opaque pattern differs from OP_OVER of its OP_SRC picture at %s pixels; "
+                        "first: pixel %d,%d gradient pixel %s, direct OVER %s, SRC-then-OVER %s" % (
+                            f[1], int(f[2]) % d["W"], int(f[2]) // d["W"], f[5], f[3], f[4])))
     # metamorphic oracle, independent of any tolerance: the colour of a pixel does not depend on the walk
     if "P" in extra and "R" in extra and history_applies(d, fl):
         stats["history-checked-requests"] += 1
